@@ -50,7 +50,7 @@ class C03(Prop):
             "m <= 7, n <= 6 against brute force; planted single-peaked profiles (random axis, outside-in votes) up to "
             "m = 30, n = 200 with shuffled storage and arbitrary ids, and one-swap perturbations; non-trivial = >= 2 "
             "orders and >= 3 alternatives")
-    budget = {"quick": 300, "thorough": 3000}
+    budget = {"quick": 300, "thorough": 20000}
     anchors = [("preflibtools.properties.subdomains.ordinal.singlepeaked.singlepeakedness", "is_single_peaked"),
                ("preflibtools.properties.subdomains.ordinal.singlepeaked.singlepeakedness", "is_single_peaked_axis"),
                ("preflibtools.instances.preflibinstance.ordinal", "OrdinalInstance.flatten_strict")]
